@@ -50,7 +50,7 @@ func c16catalogue() []c16item {
 	add("new_session_created", true, true, func(r *rand.Rand, e *rpcEnv, a pendingReq) []byte {
 		return refserver.NewSessionCreated(a.msgID, int64(r.Uint64()), e.salt())
 	})
-	for _, code := range []int32{16, 17, 18, 19, 20, 32, 33, 34, 35, 48, 64, 0, 99} {
+	for _, code := range []int32{16, 17, 18, 19, 20, 32, 33, 34, 35, 48, 64, 0, 99, -1, -16, -2147483648, 2147483647, 65, 255, 256, 65536} {
 		code := code
 		add(fmt.Sprintf("bad_msg_notification-%d", code), false, true, func(r *rand.Rand, e *rpcEnv, a pendingReq) []byte {
 			id := a.msgID // an id of a request that was already answered
